@@ -105,6 +105,23 @@ impl H {
             H::T7(h) => <BinaryCard as BC64>::from_seven(h),
         }
     }
+    /// slot 0 read through the trait, fully qualified (an inherent method of the same name would shadow
+    /// the trait method in method-call syntax)
+    pub fn first_via_trait(&self) -> u32 {
+        match *self {
+            H::T2(h) => <Two as HandValidator>::first(&h),
+            H::T3(h) => <Three as HandValidator>::first(&h),
+            H::T4(h) => <Four as HandValidator>::first(&h),
+            H::T5(h) => <Five as HandValidator>::first(&h),
+            H::T6(h) => <Six as HandValidator>::first(&h),
+            H::T7(h) => <Seven as HandValidator>::first(&h),
+        }
+    }
+    /// generic code sees only the trait
+    pub fn first_generic(&self) -> u32 {
+        fn f<V: HandValidator>(v: &V) -> u32 { v.first() }
+        each!(self, h => f(h))
+    }
     /// named accessors first(), second(), ...
     pub fn named(&self) -> Vec<u32> {
         match *self {
@@ -349,6 +366,10 @@ pub fn answer(req: &str) -> String {
                 b(p > q),
                 b(p >= q),
                 b(p == q),
+                Ord::max(p, q).value.to_string(),
+                Ord::min(p, q).value.to_string(),
+                core::cmp::max(p, q).value.to_string(),
+                core::cmp::min(p, q).value.to_string(),
             ])
         }
         ("bc", ws) => match u32s(ws).and_then(|w| H::mk(&w)) {
@@ -416,8 +437,8 @@ pub fn answer(req: &str) -> String {
                 let _ = h.set_named(op[0], x);
                 // the state is read three ways and they must agree
                 let a = h.vec();
-                if a != h.named() || a != h.iter_vec() {
-                    return format!("readers-disagree to_arr={:?} named={:?} iter={:?}", a, h.named(), h.iter_vec());
+                if a != h.named() || a != h.iter_vec() || a[0] != h.first_via_trait() || a[0] != h.first_generic() {
+                    return format!("readers-disagree to_arr={:?} named={:?} iter={:?} trait-first={} generic-first={}", a, h.named(), h.iter_vec(), h.first_via_trait(), h.first_generic());
                 }
                 out.extend(a);
             }
@@ -685,6 +706,22 @@ pub fn c11_hands(rng: &mut Rng, thorough: bool) -> Vec<Vec<u32>> {
         for _ in 0..(if thorough { 100_000 } else { 8_000 }) {
             let h: Vec<u32> = (0..n).map(|_| match rng.below(3) { 0 => rng.next() as u32, 1 => deck[rng.below(52) as usize], _ => rng.below(4) as u32 }).collect();
             out.push(h);
+        }
+        // real-card hands with a shape (straights incl. the wheel, flushes, pairs), seeded suits and orders
+        for lo in 0..10usize {
+            for _ in 0..8 {
+                let ranks: Vec<usize> = if lo == 9 { vec![12, 0, 1, 2, 3, 4, 5] } else { (lo..lo + 7).map(|r| r % 13).collect() };
+                let flush = rng.below(3) == 0;
+                let su0 = rng.below(4) as usize;
+                let mut h: Vec<u32> = ranks[..n.min(7)].iter().map(|r| { let su = if flush { su0 } else { rng.below(4) as usize }; deck[(3 - su) * 13 + (12 - r)] }).collect();
+                rng.shuffle(&mut h);
+                out.push(h);
+            }
+        }
+        for _ in 0..(if thorough { 20_000 } else { 2_000 }) {
+            let mut idx: Vec<usize> = (0..52).collect();
+            rng.shuffle(&mut idx);
+            out.push(idx[..n].iter().map(|i| deck[*i]).collect());
         }
     }
     out
@@ -1717,6 +1754,7 @@ fn sweep_c01(seed: u64, thorough: bool) -> Sweep {
     let deck = layout_deck();
     let mut rng = Rng::new(seed ^ 0xC01);
     let perms: Vec<usize> = if thorough { (0..120).collect() } else { vec![0, 1 + rng.below(119) as usize, 1 + rng.below(119) as usize] };
+    let all_orders: Vec<usize> = if thorough { Vec::new() } else { (0..120).collect() };
     let parts: Vec<(Sweep, Vec<bool>)> = par_ranges(48, 48, |lo, hi| {
         let mut s = Sweep::default();
         let mut seen = vec![false; 7463];
@@ -1727,7 +1765,9 @@ fn sweep_c01(seed: u64, thorough: bool) -> Sweep {
                         for e in d + 1..52 {
                             let idx = [a, b, c, d, e];
                             let (want, _) = oracle.of_indices(&idx);
-                            for &p in &perms {
+                            // quick tier: every 16th hand is taken through all 120 slot orders
+                            let every = !all_orders.is_empty() && (a * 7 + b * 5 + c * 3 + d + e) % 16 == 0;
+                            for &p in if every { &all_orders } else { &perms } {
                                 let pm = perm5(p);
                                 let arr = [deck[idx[pm[0]]], deck[idx[pm[1]]], deck[idx[pm[2]]], deck[idx[pm[3]]], deck[idx[pm[4]]]];
                                 let h = Five::from(arr);
@@ -1774,7 +1814,7 @@ fn sweep_c01(seed: u64, thorough: bool) -> Sweep {
     s.count("distinct-values-produced", produced as u64);
     s.count("oracle-classes", oracle.classes as u64);
     s.rule = format!(
-        "all 2,598,960 five-card hands x {} slot orders ({}), five entry points each, against the ordinal of the hand's class in the \
+        "all 2,598,960 five-card hands x {} slot orders ({}; in the quick tier every 16th hand goes through all 120 orders), five entry points each, against the ordinal of the hand's class in the \
          order by Spec.strength (oracle written by the Lean specification, no table involved); every (hand, order) is distinct and non-trivial",
         perms.len(),
         if thorough { "all 120" } else { "canonical + 2 seeded" }
@@ -1789,6 +1829,7 @@ fn sweep_c13(seed: u64, thorough: bool) -> Sweep {
     let deck = layout_deck();
     let mut rng = Rng::new(seed ^ 0xC13);
     let perms: Vec<usize> = if thorough { (0..120).collect() } else { vec![0, 1 + rng.below(119) as usize, 1 + rng.below(119) as usize] };
+    let all_orders: Vec<usize> = if thorough { Vec::new() } else { (0..120).collect() };
     let parts: Vec<Sweep> = par_ranges(48, 48, |lo, hi| {
         let mut s = Sweep::default();
         for a in lo as usize..hi as usize {
@@ -1807,7 +1848,8 @@ fn sweep_c13(seed: u64, thorough: bool) -> Sweep {
                             let straight = wheel || (0..9).any(|lo| mask == 0b11111 << lo);
                             if straight { s.nontrivial += perms.len() as u64; }
                             if flush { s.nontrivial += perms.len() as u64; }
-                            for &p in &perms {
+                            let every = !all_orders.is_empty() && (a * 7 + b * 5 + c * 3 + d + e) % 16 == 0;
+                            for &p in if every { &all_orders } else { &perms } {
                                 let pm = perm5(p);
                                 let arr = [deck[idx[pm[0]]], deck[idx[pm[1]]], deck[idx[pm[2]]], deck[idx[pm[3]]], deck[idx[pm[4]]]];
                                 let h = Five::from(arr);
@@ -2104,9 +2146,13 @@ fn sweep_c07(seed: u64, thorough: bool) -> Sweep {
             && (p > q) == (c == std::cmp::Ordering::Greater)
             && (p >= q) == (c != std::cmp::Ordering::Less)
             && (p == q) == (a == b)
-            && (c == std::cmp::Ordering::Equal) == (p == q);
+            && (c == std::cmp::Ordering::Equal) == (p == q)
+            && Ord::max(*p, *q).value as u32 == (if key(a) >= key(b) { a } else { b })
+            && Ord::min(*p, *q).value as u32 == (if key(a) <= key(b) { a } else { b })
+            && core::cmp::max(*p, *q).value as u32 == (if key(a) >= key(b) { a } else { b })
+            && p.clamp(q, q) == q;
         if !ok {
-            s.fail("comparison is not the lawful total order (cmp, partial_cmp, <, <=, >, >=, == against the integer key)", &format!("{a} {b}"), &format!("{want:?}"), &format!("cmp {c:?} partial {:?} == {}", p.partial_cmp(q), p == q));
+            s.fail("comparison is not the lawful total order (cmp, partial_cmp, <, <=, >, >=, ==, max, min, clamp against the integer key)", &format!("{a} {b}"), &format!("{want:?}"), &format!("cmp {c:?} partial {:?} == {}", p.partial_cmp(q), p == q));
         }
     };
     let mut s = Sweep::default();
@@ -2357,6 +2403,67 @@ fn sweep_c04(seed: u64, thorough: bool) -> Sweep {
             }
         }
     }
+    // valid hands at scale: validated ranking must equal unvalidated ranking (no oracle needed) and be non-zero
+    let valid_check = |ws: &[u32], p: &mut Sweep| {
+        p.evaluations += 1;
+        let r = guarded(|| match H::mk(ws).unwrap() {
+            H::T5(f) => (f.is_valid(), f.hand_rank_value_validated(), f.hand_rank_value(), ckc_rs::evaluate::five_cards(f.to_arr()), f.hand_rank_validated().value),
+            H::T6(f) => (f.is_valid(), f.hand_rank_value_validated(), f.hand_rank_value(), f.hand_rank_value_validated(), f.hand_rank_validated().value),
+            H::T7(f) => (f.is_valid(), f.hand_rank_value_validated(), f.hand_rank_value(), f.hand_rank_value_validated(), f.hand_rank_validated().value),
+            _ => unreachable!(),
+        });
+        match r {
+            Some((true, a, b, c, d)) if a == b && a == c && a == d && a != 0 => {}
+            other => p.fail("validated ranking of distinct real cards differs from unvalidated ranking (valid, validated, unvalidated, free fn / validated again, hand_rank_validated)", &join(ws), "valid, equal, non-zero", &format!("{other:?}")),
+        }
+    };
+    let parts: Vec<Sweep> = par_ranges(47, 47, |lo, hi| {
+        let mut p = Sweep::default();
+        let mut rng = Rng::new(seed ^ lo ^ 0x4C04);
+        for a in lo as usize..hi as usize {
+            for b in a + 1..52 { for c in b + 1..52 { for d in c + 1..52 { for e in d + 1..52 {
+                if (a + b + c + d + e) % 4 == 0 {
+                    valid_check(&[deck[e], deck[a], deck[d], deck[b], deck[c]], &mut p);
+                }
+                for f in e + 1..52 {
+                    if (a + b + c + d + e + f) % 8 == 0 {
+                        valid_check(&[deck[a], deck[b], deck[c], deck[d], deck[e], deck[f]], &mut p);
+                    }
+                }
+            } } } }
+        }
+        let mut idx: Vec<usize> = (0..52).collect();
+        for _ in 0..(if thorough { 1_000_000 } else { 100_000 }) {
+            rng.shuffle(&mut idx);
+            let ws: Vec<u32> = idx[..7].iter().map(|i| deck[*i]).collect();
+            valid_check(&ws, &mut p);
+        }
+        p
+    });
+    for p in parts { s.merge(p); }
+    // six or seven cards holding more than one straight flush (six or seven suited cards in a row, the ace
+    // playing low as well), every such run with every extra card, in deck, reversed and seeded slot orders
+    let word = |r: usize, su: usize| deck[(3 - su) * 13 + (12 - (r % 13))];
+    for su in 0..4usize {
+        for len in [6usize, 7] {
+            for lo in 0..=(13 - len + 1) {
+                // ranks lo-1 .. lo+len-2 with -1 meaning the ace low
+                let run: Vec<u32> = (0..len).map(|k| if lo == 0 && k == 0 { word(12, su) } else { word(lo + k - 1, su) }).collect();
+                let extras: Vec<Option<u32>> = if len == 7 { vec![None] } else { std::iter::once(None).chain(deck.iter().filter(|w| !run.contains(w)).map(|w| Some(*w))).collect() };
+                for ex in extras {
+                    let mut ws = run.clone();
+                    if let Some(x) = ex { ws.push(x); }
+                    if ws.len() < 6 { continue; }
+                    let mut orders = vec![ws.clone()];
+                    let mut r = ws.clone(); r.reverse(); orders.push(r);
+                    let mut srt = ws.clone(); srt.sort_unstable(); orders.push(srt.clone()); srt.reverse(); orders.push(srt);
+                    for _ in 0..4 { let mut t = ws.clone(); rng.shuffle(&mut t); orders.push(t); }
+                    for o in orders { valid_check(&o, &mut s); }
+                }
+            }
+        }
+    }
+    s.count("valid hands: validated vs unvalidated", 0);
     // the per-slot recogniser over all 2^32 words
     let bad: Vec<(u32, u32)> = par_ranges(1 << 32, threads() * 4, |lo, hi| {
         let mut v = Vec::new();
@@ -2375,7 +2482,7 @@ fn sweep_c04(seed: u64, thorough: bool) -> Sweep {
     for (w, got) in bad {
         s.fail("card recogniser (filter)", &w.to_string(), "identity on the 52 cards, blank elsewhere", &got.to_string());
     }
-    s.rule = "hands of sizes 2..7 over {52 cards, blank, single-bit corruptions, flagged cards, 0xFFFFFFFF, small integers}: a duplicate planted at every slot pair, a near-miss at every slot, seeded arrangements and arbitrary words; validators and validated ranking against membership in the 52 layout words and pairwise inequality; the recogniser over all 2^32 words; non-trivial = the hand is not valid".into();
+    s.rule = "every fourth five-card and eighth six-card hand, seeded seven-card hands and every six/seven-card hand holding several straight flushes (8 slot orders each): validated = unvalidated != 0; hands of sizes 2..7 over {52 cards, blank, single-bit corruptions, flagged cards, 0xFFFFFFFF, small integers}: a duplicate planted at every slot pair, a near-miss at every slot, seeded arrangements and arbitrary words; validators and validated ranking against membership in the 52 layout words and pairwise inequality; the recogniser over all 2^32 words; non-trivial = the hand is not valid".into();
     s.sample(format!("[JC 2C 23 KS TS] valid = {:?}", guarded(|| Five::from([deck[48], deck[51], 23, deck[1], deck[4]]).is_valid())));
     s.sample(format!("five_cards([JC 2C 3C KS JC]) = {:?}", guarded(|| ckc_rs::evaluate::five_cards([deck[48], deck[51], deck[50], deck[1], deck[48]]))));
     s
@@ -2517,7 +2624,48 @@ fn sweep_c11(seed: u64, thorough: bool) -> Sweep {
             s.fail("sort is not the non-increasing rearrangement (sort, sort_in_place, sort twice, input untouched)", &join(&h), &join(&want), &format!("{} | {} | {:?}", join(&a), join(&b), again));
         }
     }
-    s.rule = "all 52 x 52 card pairs for the numeric order; for sizes 2..7 all arrangements (n <= 4) or all multisets in canonical and a seeded arrangement over {3 cards, blank, a flagged card, 0xFFFFFFFF, 1} plus seeded arbitrary-word hands: output must be the same multiset, non-increasing, idempotent, copy and in-place forms equal; non-trivial = not all slots equal".into();
+    // every hand of 2, 3, 4 and 5 distinct real cards (one seeded slot order each), seeded six/seven-card hands
+    let deck = layout_deck();
+    let check_real = |idx: &[usize], rng: &mut Rng, p: &mut Sweep| {
+        let mut h: Vec<u32> = idx.iter().map(|i| deck[*i]).collect();
+        rng.shuffle(&mut h);
+        p.evaluations += 1;
+        p.nontrivial += 1;
+        let hh = H::mk(&h).unwrap();
+        let mut want = h.clone();
+        want.sort_unstable_by(|x, y| y.cmp(x));
+        let got = guarded(|| (hh.sorted(), hh.sorted_in_place()));
+        if got != Some((want.clone(), want.clone())) {
+            p.fail("sorting real cards is not the non-increasing rearrangement (sort, sort_in_place)", &join(&h), &join(&want), &format!("{got:?}"));
+        }
+    };
+    let parts: Vec<Sweep> = par_ranges(52, 52, |lo, hi| {
+        let mut p = Sweep::default();
+        let mut rng = Rng::new(seed ^ lo ^ 0x11C);
+        for a in lo as usize..hi as usize {
+            for b in a + 1..52 {
+                check_real(&[a, b], &mut rng, &mut p);
+                for c in b + 1..52 {
+                    check_real(&[a, b, c], &mut rng, &mut p);
+                    for d in c + 1..52 {
+                        check_real(&[a, b, c, d], &mut rng, &mut p);
+                        for e in d + 1..52 {
+                            check_real(&[a, b, c, d, e], &mut rng, &mut p);
+                        }
+                    }
+                }
+            }
+        }
+        let mut idx: Vec<usize> = (0..52).collect();
+        for k in 0..(if thorough { 400_000 } else { 40_000 }) {
+            rng.shuffle(&mut idx);
+            check_real(&idx[..6 + k % 2], &mut rng, &mut p);
+        }
+        p
+    });
+    for p in parts { s.merge(p); }
+    s.count("every hand of 2..5 distinct real cards, one seeded order each", 1326 + 22100 + 270725 + 2598960);
+    s.rule = "all 52 x 52 card pairs for the numeric order; every hand of 2, 3, 4, 5 distinct real cards and seeded six/seven-card hands in seeded orders; for sizes 2..7 all arrangements (n <= 4) or all multisets in canonical and a seeded arrangement over {3 cards, blank, a flagged card, 0xFFFFFFFF, 1} plus seeded arbitrary-word hands: output must be the same multiset, non-increasing, idempotent, copy and in-place forms equal; non-trivial = not all slots equal".into();
     s.sample(format!("Five[2C AS 0 KS 2C].sort() = {:?}", H::mk(&[layout_word(0, 0), layout_word(12, 3), 0, layout_word(11, 3), layout_word(0, 0)]).unwrap().sorted()));
     s
 }
@@ -2752,6 +2900,40 @@ fn sweep_c12(seed: u64, thorough: bool) -> Sweep {
             other => s.fail("bit-set from text", &format!("{t:?}"), &want_bc.to_string(), &format!("{other:?}")),
         }
     }
+    // every Unicode scalar as the first character (before a suit symbol) and as the second character (after a
+    // rank symbol) of a token, through EVERY text entry point: the card token, the six hand parsers,
+    // parse::five_from_index and the text bit-set (a transformation applied by one parser only is seen here)
+    let parts: Vec<Sweep> = par_ranges(0x110000, threads() * 2, |lo, hi| {
+        let mut p = Sweep::default();
+        for cp in lo as u32..hi as u32 {
+            let Some(ch) = char::from_u32(cp) else { continue };
+            for (tok, slot) in [(format!("{ch}s"), 0usize), (format!("A{ch}"), 1usize)] {
+                let text = format!("{tok} KS QS JS TS 9S 8S");
+                let toks = spec_tokens(&text);
+                p.evaluations += 1;
+                let want_tok = spec_token(&tok);
+                let got_tok = guarded(|| <CKCNumber as PokerCard>::from_index(&tok));
+                if got_tok != Some(want_tok) {
+                    p.fail("card token", &format!("{tok:?} (U+{cp:04X} in position {slot})"), &want_tok.to_string(), &format!("{got_tok:?}"));
+                }
+                for n in 2..=7u64 {
+                    let want_h = if toks.len() < n as usize { "none".to_string() } else { join(toks[..n as usize].iter().map(|x| spec_token(x))) };
+                    let got = guarded(|| parse_hand(n, &text));
+                    if got.as_deref() != Some(&want_h) {
+                        p.fail(&format!("{n}-slot hand parser"), &format!("{text:?} (U+{cp:04X} in position {slot})"), &want_h, &format!("{got:?}"));
+                    }
+                }
+                let want_bc = toks.iter().fold(0u64, |a, x| a | <BinaryCard as BC64>::from_ckc(spec_token(x)));
+                let got_bc = guarded(|| <BinaryCard as BC64>::from_index(&text));
+                if got_bc != Some(want_bc) {
+                    p.fail("bit-set from text", &format!("{text:?} (U+{cp:04X} in position {slot})"), &want_bc.to_string(), &format!("{got_bc:?}"));
+                }
+            }
+        }
+        p
+    });
+    for p in parts { s.merge(p); }
+    s.count("every scalar as 1st / 2nd character of a token, through all nine text entry points", 2 * 1_112_064);
     for w in layout_deck() {
         s.evaluations += 2;
         s.nontrivial += 2;
@@ -2790,8 +2972,8 @@ fn sweep_c19(seed: u64, thorough: bool) -> Sweep {
                 model[k] = x;
                 s.evaluations += 1;
                 s.nontrivial += 1;
-                if h.vec() != model || h.named() != model || h.iter_vec() != model {
-                    s.fail(&format!("{n}-slot container differs from an array with the same writes after step {step}"), &format!("{:?} {}", init, hist.join(" ")), &format!("{model:?}"), &format!("to_arr {:?} accessors {:?} iter {:?}", h.vec(), h.named(), h.iter_vec()));
+                if h.vec() != model || h.named() != model || h.iter_vec() != model || h.first_via_trait() != model[0] || h.first_generic() != model[0] {
+                    s.fail(&format!("{n}-slot container differs from an array with the same writes after step {step}"), &format!("{:?} {}", init, hist.join(" ")), &format!("{model:?}"), &format!("to_arr {:?} accessors {:?} iter {:?} <T as HandValidator>::first {} generic first {}", h.vec(), h.named(), h.iter_vec(), h.first_via_trait(), h.first_generic()));
                     break;
                 }
             }
